@@ -209,22 +209,26 @@ class _BaseLayout(MaildirLayout[_MaildirT], metaclass=ABCMeta):
         except NoSuchMailboxError as exc:
             raise FileNotFoundError(path) from exc
 
-    def add_folder(self, name: str, delimiter: str) -> None:
-        parts = self._split(name, delimiter)
-        for i in range(1, len(parts)):
-            parent_parts = parts[0:i]
-            path = self._get_path(parent_parts)
-            if not os.path.isdir(path):
-                parent_name = self._join(parent_parts, delimiter)
-                self.add_folder(parent_name, delimiter)
+    def _add_parts(self, parts: _Parts) -> None:
         path = self._get_path(parts)
-        if self._is_folder(path):
-            raise FileExistsError(path)
         for subdir in ('', 'tmp', 'new', 'cur'):
             os.makedirs(os.path.join(path, subdir), exist_ok=True)
         maildirfolder = os.path.join(path, 'maildirfolder')
         with open(maildirfolder, 'x'):
             pass
+
+    def _add_superiors(self, parts: _Parts) -> None:
+        for i in range(1, len(parts)):
+            if not self._is_folder(self._get_path(parts[0:i])):
+                self._add_parts(parts[0:i])
+
+    def add_folder(self, name: str, delimiter: str) -> None:
+        parts = self._split(name, delimiter)
+        path = self._get_path(parts)
+        if not parts or self._is_folder(path):
+            raise FileExistsError(path)
+        self._add_superiors(parts)
+        self._add_parts(parts)
 
     def remove_folder(self, name: str, delimiter: str) -> None:
         parts = self._split(name, delimiter)
@@ -250,12 +254,7 @@ class _BaseLayout(MaildirLayout[_MaildirT], metaclass=ABCMeta):
             raise FileNotFoundError(source_path)
         elif os.path.exists(dest_path):
             raise FileExistsError(dest_path)
-        for i in range(1, len(dest_parts)):
-            parts = dest_parts[0:i]
-            path = self._get_path(parts)
-            if not os.path.isdir(path):
-                name = self._join(parts, delimiter)
-                self.add_folder(name, delimiter)
+        self._add_superiors(dest_parts)
         self._rename_folder(source_parts, dest_parts)
 
 
